@@ -29,6 +29,7 @@ type Writer struct {
 	Monitor  []string // property-predicate failures observed on the implementation
 	seen     map[string]struct{}
 	Distinct int
+	lastReq  string
 }
 
 func NewWriter(dir string) *Writer {
@@ -55,6 +56,7 @@ func NewWriter(dir string) *Writer {
 // non-trivial by the family's rule.
 func (w *Writer) Case(class string, nontrivial bool, req string, reply string) {
 	w.N++
+	w.lastReq = req
 	w.Stats[class]++
 	fmt.Fprintln(w.ops, req)
 	fmt.Fprintln(w.out, reply)
@@ -71,7 +73,7 @@ func (w *Writer) Case(class string, nontrivial bool, req string, reply string) {
 
 func (w *Writer) Fail(format string, args ...any) {
 	if len(w.Monitor) < 200 {
-		w.Monitor = append(w.Monitor, fmt.Sprintf(format, args...))
+		w.Monitor = append(w.Monitor, fmt.Sprintf(format, args...)+" [replay: "+w.lastReq+"]")
 	}
 	w.Stats["monitor_fail"]++
 }
